@@ -13,6 +13,9 @@ FNAMES = {'atomid', 'atomname', 'altloc', 'resname', 'chain', 'resid', 'insertio
           'occupancy', 'temp_factor', 'element', 'charge', 'vx', 'vy', 'vz'}
 
 
+GRO_PRECISIONS = tuple(range(4, 12))
+
+
 class ExtractError(Exception):
     pass
 
@@ -35,6 +38,67 @@ def _assigns(fn, target):
                 and node.targets[0].id == target:
             out.append(node)
     return out
+
+
+def _module_assign(tree, name):
+    """value node of the unique top-level (module or class level) assignment `name = ...`"""
+    vals = []
+    for node in ast.walk(tree):
+        if isinstance(node, (ast.Module, ast.ClassDef)):
+            for sub in node.body:
+                if isinstance(sub, ast.Assign) and len(sub.targets) == 1 and isinstance(sub.targets[0], ast.Name) \
+                        and sub.targets[0].id == name:
+                    vals.append(sub.value)
+                elif isinstance(sub, ast.AnnAssign) and isinstance(sub.target, ast.Name) and sub.target.id == name \
+                        and sub.value is not None:
+                    vals.append(sub.value)
+    return vals[0] if len(vals) == 1 else None
+
+
+def _resolve(tree, fn, node, depth=0):
+    """follow names, `list(x)`, `tuple(x)`, `x.copy()`, `x[:]`, `self.X` / `Class.X` to the literal a value
+    comes from (function-local assignment first, then class / module level constants)"""
+    if depth > 8 or node is None:
+        return None
+    if isinstance(node, (ast.List, ast.Tuple, ast.Constant)):
+        return node
+    if isinstance(node, ast.Name):
+        local = [a.value for a in _assigns(fn, node.id)] if fn is not None else []
+        if len(local) == 1 and not (isinstance(local[0], ast.Name) and local[0].id == node.id):
+            return _resolve(tree, fn, local[0], depth + 1)
+        if not local:
+            return _resolve(tree, None, _module_assign(tree, node.id), depth + 1)
+        return None
+    if isinstance(node, ast.Attribute):      # self.FIELDS, PDBParser.FIELDS
+        return _resolve(tree, None, _module_assign(tree, node.attr), depth + 1)
+    if isinstance(node, ast.Call):
+        if isinstance(node.func, ast.Name) and node.func.id in ('list', 'tuple') and len(node.args) == 1:
+            return _resolve(tree, fn, node.args[0], depth + 1)
+        if isinstance(node.func, ast.Attribute) and node.func.attr == 'copy' and not node.args:
+            return _resolve(tree, fn, node.func.value, depth + 1)
+        if isinstance(node.func, ast.Attribute) and node.func.attr == 'deepcopy' and len(node.args) == 1:
+            return _resolve(tree, fn, node.args[0], depth + 1)
+    if isinstance(node, ast.Subscript) and isinstance(node.slice, ast.Slice) and node.slice.lower is None \
+            and node.slice.upper is None and node.slice.step is None:
+        return _resolve(tree, fn, node.value, depth + 1)
+    return None
+
+
+def _resolved_assign(tree, fn, target):
+    """the literal behind `target` as used in function `fn` (local assignment or hoisted constant)"""
+    local = _assigns(fn, target)
+    if len(local) == 1:
+        return _resolve(tree, fn, local[0].value)
+    if not local:
+        return _resolve(tree, None, _module_assign(tree, target))
+    return None
+
+
+def _const_anywhere(tree, fn, target, typ):
+    node = _resolved_assign(tree, fn, target)
+    if isinstance(node, ast.Constant) and isinstance(node.value, typ):
+        return node.value
+    raise ExtractError('constant %s not found (neither in the function nor hoisted to class/module level)' % target)
 
 
 def _const_assign(fn, target, typ):
@@ -116,15 +180,16 @@ def extract(repo):
     src = open(os.path.join(repo, 'vermouth', 'pdb', 'pdb.py')).read()
     tree = ast.parse(src)
     w = _func(tree, 'write_pdb_string')
-    atom_fmt = _const_assign(w, 'format_string', str)
-    number_fmt = _const_assign(w, 'number_fmt', str)
-    atom_names = ter_fmt = ter_names = None
+    number_fmt = _const_anywhere(tree, w, 'number_fmt', str)
+    atom_fmt = atom_names = ter_fmt = ter_names = None
     for first, names in _format_calls(w):
-        if isinstance(first, ast.Name) and first.id == 'format_string':
-            atom_names = names
-        elif isinstance(first, ast.Constant) and isinstance(first.value, str):
-            ter_fmt, ter_names = first.value, names
-    if atom_names is None or ter_fmt is None:
+        lit = _resolve(tree, w, first)
+        if isinstance(lit, ast.Constant) and isinstance(lit.value, str):
+            if lit.value.startswith('ATOM') and atom_fmt is None:
+                atom_fmt, atom_names = lit.value, names
+            elif lit.value.startswith('TER') and ter_fmt is None:
+                ter_fmt, ter_names = lit.value, names
+    if atom_fmt is None or ter_fmt is None:
         raise ExtractError('ATOM/TER formatter calls not found in write_pdb_string')
     fmts = _assigns(w, 'fmt')
     if len(fmts) != 1:
@@ -169,11 +234,11 @@ def extract(repo):
     res['endLine'] = end_line
     # ---------------- PDB reader
     at = _func(tree, '_atom', 'PDBParser')
-    fl = _assigns(at, 'fields')
-    if len(fl) != 1 or not isinstance(fl[0].value, ast.List):
+    fl = _resolved_assign(tree, at, 'fields')
+    if not isinstance(fl, (ast.List, ast.Tuple)):
         raise ExtractError('PDBParser._atom fields table not found')
     rfields = []
-    for t in fl[0].value.elts:
+    for t in fl.elts:
         if not (isinstance(t, ast.Tuple) and len(t.elts) == 3 and isinstance(t.elts[0], ast.Constant)
                 and isinstance(t.elts[1], ast.Name) and isinstance(t.elts[2], ast.Constant)):
             raise ExtractError('unexpected entry in PDBParser._atom fields: ' + ast.unparse(t))
@@ -185,20 +250,35 @@ def extract(repo):
         rfields.append((nm or None, ty, int(wd)))
     res['pdbReaderFields'] = rfields
     dc = _func(tree, 'do_conect', 'PDBParser')
-    res['conectStart'] = _const_assign(dc, 'start', int)
-    res['conectWidth'] = _const_assign(dc, 'width', int)
+    res['conectStart'] = _const_anywhere(tree, dc, 'start', int)
+    res['conectWidth'] = _const_anywhere(tree, dc, 'width', int)
     # ---------------- GRO writer
     gsrc = open(os.path.join(repo, 'vermouth', 'gmx', 'gro.py')).read()
     gtree = ast.parse(gsrc)
     gw = _func(gtree, 'write_gro')
     default_precision = inspect.signature(gromod.write_gro).parameters['precision'].default
-    ns = {'precision': default_precision}
-    for tgt in ('pos_format_string', 'format_string'):
-        asg = _assigns(gw, tgt)
-        if len(asg) != 1:
-            raise ExtractError('expected one assignment to %s in write_gro' % tgt)
-        exec(compile(ast.Module(body=[asg[0]], type_ignores=[]), '<gro>', 'exec'), {'__builtins__': {}}, ns)
-    gro_fmt = ns['format_string']
+    # module-level literal constants may take part in the construction of the format string
+    consts = {}
+    for sub in gtree.body:
+        if isinstance(sub, ast.Assign) and len(sub.targets) == 1 and isinstance(sub.targets[0], ast.Name):
+            try:
+                consts[sub.targets[0].id] = ast.literal_eval(sub.value)
+            except Exception:
+                pass
+
+    def gro_format_for(precision):
+        ns = dict(consts)
+        ns['precision'] = precision
+        for tgt in ('pos_format_string', 'format_string'):
+            asg = _assigns(gw, tgt)
+            if len(asg) > 1:
+                raise ExtractError('expected one assignment to %s in write_gro' % tgt)
+            if asg:
+                exec(compile(ast.Module(body=[asg[0]], type_ignores=[]), '<gro>', 'exec'), {'__builtins__': {}}, ns)
+        if not isinstance(ns.get('format_string'), str):
+            raise ExtractError('format_string of write_gro not found')
+        return ns['format_string']
+    gro_fmt = gro_format_for(default_precision)
     gro_names = None
     for first, names in _format_calls(gw):
         if isinstance(first, ast.Name) and first.id == 'format_string':
@@ -206,15 +286,18 @@ def extract(repo):
     if gro_names is None:
         raise ExtractError('atom formatter call not found in write_gro')
     res['groFmt'] = parse_format(gro_fmt, gro_names, TruncFormatter)
+    res['groDefaultPrecision'] = default_precision
+    res['groFmts'] = [(p, parse_format(gro_format_for(p), gro_names, TruncFormatter)) for p in GRO_PRECISIONS]
+    res['gro_strings'] = {p: gro_format_for(p) for p in GRO_PRECISIONS}
     # ---------------- GRO reader
     gr = _func(gtree, 'read_gro')
 
     def lit_list(target):
-        a = _assigns(gr, target)
-        if len(a) != 1 or not isinstance(a[0].value, ast.List):
+        lit = _resolved_assign(gtree, gr, target)
+        if not isinstance(lit, (ast.List, ast.Tuple)):
             raise ExtractError('read_gro %s table not found' % target)
         out = []
-        for e in a[0].value.elts:
+        for e in lit.elts:
             if isinstance(e, ast.Constant):
                 out.append(e.value)
             elif isinstance(e, ast.Name):
@@ -229,8 +312,8 @@ def extract(repo):
     for node in ast.walk(gr):
         if isinstance(node, ast.Call) and isinstance(node.func, ast.Attribute) and node.func.attr == 'extend' \
                 and isinstance(node.func.value, ast.Name) and node.func.value.id == 'field_names' \
-                and isinstance(node.args[0], ast.List):
-            vel_names = [e.value for e in node.args[0].elts]
+                and isinstance(_resolve(gtree, gr, node.args[0]), (ast.List, ast.Tuple)):
+            vel_names = [e.value for e in _resolve(gtree, gr, node.args[0]).elts]
         if isinstance(node, ast.Call) and isinstance(node.func, ast.Attribute) and node.func.attr == 'find' \
                 and len(node.args) == 2 and isinstance(node.args[1], ast.Constant):
             dot_from = node.args[1].value
@@ -351,6 +434,11 @@ def pdb : PdbLayout :=
 
 def groFmt : List Seg := %s
 
+/-- the format string of `write_gro` for the values of its `precision` parameter the histories use -/
+def groFmts : List (Nat × List Seg) := [
+%s]
+def groDefaultPrecision : Nat := %d
+
 def groNames : List FName := [%s]
 def groTypes : List RTy := [%s]
 def groWidths : List Nat := [%s]
@@ -364,6 +452,7 @@ def gro : GroLayout :=
 end C16.Layout
 ''' % (lsegs(res['atomFmt']), lsegs(res['terFmt']), lchars(res['conectPrefix']), lspec(res['conectNum']),
        res['conectChunk'], lchars(res['endLine']), rf, res['conectStart'], res['conectWidth'],
-       lsegs(res['groFmt']), ', '.join('.' + n for n in res['groNames']),
+       lsegs(res['groFmt']), ',\n'.join('  (%d, %s)' % (p, lsegs(sg)) for p, sg in res['groFmts']),
+       res['groDefaultPrecision'], ', '.join('.' + n for n in res['groNames']),
        ', '.join('.' + t for t in res['groTypes']), ', '.join(str(w) for w in res['groWidths']),
        ', '.join('.' + n for n in res['groVelNames']), res['groDotFrom'])
